@@ -3064,7 +3064,7 @@ fn corrupt_archive_structure(data: &mut [u8], rng: &mut Rng) -> Option<String> {
         let size = u64_at(data, pos)? as usize;
         let empty = data[pos + 16] != 0;
         headers.push((pos, empty));
-        if size < 33 || pos + size > data.len() { break }
+        if size < 33 || size > data.len() || pos + size > data.len() { break }
         pos += size;
     }
     let choose_value = |rng: &mut Rng, old: u64| -> u64 {
